@@ -1,6 +1,7 @@
 package checks
 
 import (
+	"bytes"
 	"encoding/binary"
 	"fmt"
 	"math/rand"
@@ -615,6 +616,12 @@ func runC12LiveSwap(c *fw.Ctx, id string, r *rand.Rand) {
 		send(buildV6(58, 0, -1))                                                           // ICMPv6
 		send(buildV6(17, 0, -1))                                                           // UDP over IPv6
 		send(buildV4(0x0800, 6, 7, 0, cfg.src, cfg.dst, cfg.sport, cfg.dport, 0x12, -1))   // the tuple's SYN-ACK behind IP options
+		// long frames: an ICMPv6 error quoting a whole probe (14+40+8+40+8 = 110 bytes and more), an ICMPv4 error with a
+		// long quote: what the filter accepts is delivered WHOLE
+		long6 := append(buildV6(58, 0, -1), bytes.Repeat([]byte{0x5c}, 90)...)
+		send(long6)
+		long4 := append(buildV4(0x0800, 1, 5, 0, foreign, cfg.dst, 0x0b00, 0, 0, -1), bytes.Repeat([]byte{0x3a}, 200)...)
+		send(long4)
 	}
 	steps := 3 + r.Intn(3)
 	var cur fl
@@ -674,8 +681,14 @@ func runC12LiveSwap(c *fw.Ctx, id string, r *rand.Rand) {
 				c.Violate("C12", "live-accepts-unwanted/"+cur.name, fmt.Sprintf("%s: after installing %s (sequence %s) the AF_PACKET source returned a frame its filter must reject: %s, % x", id, cur.name, seq, which, p[:min(n, 40)]), nil)
 				return
 			}
-			if _, ok := injected[tg]; ok {
+			if inj, ok := injected[tg]; ok {
 				got[tg]++
+				// accepting a frame means delivering it: all of it, unchanged (the filter's return value is also the number
+				// of bytes the kernel keeps)
+				if len(inj) > 14 && !bytes.Equal(p, inj[14:]) {
+					c.Violate("C12", "live-frame-altered/"+cur.name, fmt.Sprintf("%s: frame %d was injected with %d bytes behind the Ethernet header, the AF_PACKET source (filter %s) returned %d bytes (equal prefix: %v)", id, tg, len(inj)-14, cur.name, n, bytes.HasPrefix(inj[14:], p)), nil)
+					return
+				}
 			}
 		}
 		for tg := firstTagOfBatch; tg <= tag; tg++ {
